@@ -57,6 +57,24 @@ def through_link(path, on: bool):
     return path
 
 
+def through_dotdot(path, on: bool):
+    """When `on`: the file moves to <dir>/real_sub/<name>; <dir>/lnk is a symbolic link to real_sub/deep; the returned spelling
+    <dir>/lnk/../<name> names the moved file for the operating system (which follows the link before it applies '..'), while a
+    purely textual normalisation of it names <dir>/<name> - where a DECOY with other content is planted."""
+    from pathlib import Path
+    path = Path(path)
+    if not on or not path.is_file() or path.is_symlink():
+        return path
+    d = path.parent
+    (d / "real_sub" / "deep").mkdir(parents=True, exist_ok=True)
+    moved = d / "real_sub" / path.name
+    path.rename(moved)
+    if not (d / "lnk").exists():
+        (d / "lnk").symlink_to("real_sub/deep")
+    path.write_bytes(b"decoy: not the file the path names " + moved.read_bytes()[:7])
+    return d / "lnk" / ".." / path.name
+
+
 def num(v: int) -> str:
     """A number as the command line / a configuration file may spell it: the notation (0x.. hex, decimal, 0o.. octal, 0b.. binary)
     is free wherever the tool reads integers with base 0, so it varies with the value."""
